@@ -1,13 +1,26 @@
-(* C06 — every scheduled step executes the step function exactly once.  Statements only. *)
+(* C06 — every scheduled step executes the step function exactly once.  Statements only.
+   Threaded runtime: ghost log of step-function applications on the actor net.  Compiled runtime: the log of the generation-ordered runner. *)
 From Coq Require Import List Arith ZArith Bool.
-From Rex Require Import KahnL AsyncModel2 AsyncStable ConflInv RexDet AsyncLaws AsyncLaws2 AsyncLaws3 AsyncLaws4.
+From Rex Require Import KahnL AsyncModel2 AsyncStable ConflInv RexDet AsyncLaws AsyncLaws2 AsyncLaws3 AsyncLaws4 CompiledModel ScheduleSpec ScheduleCover CompiledOnce.
 Import ListNotations.
 
-(* threaded runtime: in every reachable state of the actor net (every schedule, every prefix of an episode) the ghost log
-   of step-function applications of node n is exactly the list of recorded ticks, and row k is tick k: each recorded
-   tick was executed exactly once, with its own sequence number, and nothing else was executed *)
-Theorem C06_async_once : forall (G : cfg) (s : state) (n : nat), reach G s -> (n < NN G)%nat ->
-  l_calls (nth (AStep n) (loc tok local s) l0) = map r_seq (rows_of s n) /\
-  (forall (k : nat) (r : row), nth_error (rows_of s n) k = Some r -> r_seq r = k).
-Proof. exact async_once. Qed.
+(* threaded runtime: in every reachable state (every schedule, every prefix of an episode) the log of step-function applications of node n is exactly the list of recorded ticks, and row k is tick k *)
+Theorem C06_async_once : forall (G : cfg) (s : state) (n : nat), reach G s -> (n < NN G)%nat -> l_calls (nth (AStep n) (loc tok local s) l0) = map r_seq (rows_of s n) /\ (forall (k : nat) (r : AsyncModel2.row), nth_error (rows_of s n) k = Some r -> r_seq r = k).
+Proof. exact @async_once. Qed.
 Print Assumptions C06_async_once.
+
+(* compiled runtime: the applications of the step function during a rollout over partitions p0..p0+n-1 are, in order, exactly the scheduled (unmasked) cells of those partitions, each with its own sequence number *)
+Theorem C06_compiled_once : forall (I : inst) (Val : Type) (f : nat -> Z -> Z -> Val -> list (list (Z * Z * Z * Val)) -> Val) (vi vd : nat -> Val) (sizes : list Z) (p0 n : nat), map (row_key Val) (r_log Val (rollout I Val f vi vd sizes p0 n)) = map todo_key (concat (flat_map (phases_of I) (seq p0 n))).
+Proof. exact @compiled_once. Qed.
+Print Assumptions C06_compiled_once.
+
+(* a masked slot (run = false) contributes no application *)
+Theorem C06_masked_slots_execute_nothing : forall (I : inst) (p g : nat) (nc : nat * cell), In nc (gen_todo I p g) -> c_run (snd nc) = true.
+Proof. exact @masked_slots_execute_nothing. Qed.
+Print Assumptions C06_masked_slots_execute_nothing.
+
+(* and in a valid schedule no (node, seq) occurs twice, so every scheduled vertex is executed exactly once *)
+Theorem C06_scheduled_once : forall I : inst, ValidSchedule I -> forall (n : nat) (k : Z) (p g : nat) (c : cell) (p' g' : nat) (c' : cell), In (n, k, p, g, c) (run_cells I) -> In (n, k, p', g', c') (run_cells I) -> (p, g, c) = (p', g', c').
+Proof. exact @scheduled_once. Qed.
+Print Assumptions C06_scheduled_once.
+
